@@ -539,6 +539,47 @@ extend("C20",
        "LFP handling and deep copies; copying of pre-generated files; slab geometry has no fixture (its averaging routine is tied at "
        "function level); no source tie: the label functions are string code outside the translatable subset.")
 
+extend("C03",
+       "Also proved about the code's state: the component, and a block of linked components with a derived shape, are executable "
+       "state machines with their caches (p.volume, clearLinkedCache sweep, derivedMustUpdate); for any history of queries, "
+       "temperature changes, material swaps and dimension edits (incl. retained links) every cached volume equals current area x "
+       "height, the derived shape closes the block through area and volume reads, a material swap forgets the previous material, and "
+       "the end state depends only on the final temperature. Tied on every run by replaying seeded call histories (all shape classes "
+       "incl. area-defined, bare / in blocks / warmed caches / derived coolant / link chains) on model and code, every returned value "
+       "compared. One repaired defect (b30c1b1) is stated exactly as a theorem (coded_sweep_misses_chain).",
+       "block height and max area are constants of a history; applyMaterialMassFracsToNumberDensities enters as 'densities replaced'; "
+       "a raising DerivedShape.getVolume is excluded.")
+extend("C02",
+       "Additivity and mass = density x volume are proved by structural induction for composite trees of arbitrary depth; "
+       "adjustMassFrac's dict (adjusted total, held nuclides constant) and HexBlock.getSymmetryFactor in {1,2,3} are modelled, proved "
+       "and compared function-level.",
+       "nucDir.getNuclideNames is a parameter; held shares are >= 1e-3 because of rounding amplification.")
+extend("C04",
+       "The round trip is also proved on the columns of the layout group (cols_roundtrip); a database file is modelled as a map from "
+       "group name to statepoint, and every statepoint of any accepted write history loads to the state at its own write, with "
+       "occupied addresses refused (multi_statepoint_roundtrip, get_write_other); on load the saved parameter value wins over the "
+       "blueprint value (load_param_saved_not_blueprint); both child orders (ArmiObject and Component __lt__) are modelled and proved "
+       "asymmetric. Tied additionally to getH5GroupName, write/load histories on a real file, _assignBlueprintsParams, malformed "
+       "_unpackLocations input and sorted(components); the oracle additionally runs inputs whose blueprints assign parameters (values "
+       "changed after construction), an every-parameter sweep and multi-statepoint files with layout-borne edits and tree changes.",
+       "h5py group independence and Assembly.add's locator override for blocks are oracle-only; the two diameter getters behind "
+       "Component.__lt__ are parameters.")
+extend("C05",
+       "The main theorem's hypotheses are decidable predicates evaluated by the model on every generated list (write_read_decided, "
+       "in_domain_decided).",
+       "Text beyond ASCII / NUL is oracle-only; trailing-NUL strings are a listed finding.")
+extend("C09",
+       "Each of the 13 file types (and variants) has a record schema in a small schema language (int/long/real/double/string fields, "
+       "counted lists and matrices, conditional fields, optional records, counted loops, all bounds computed from header values read so "
+       "far); read-back, framing (count = payload length) and byte-identical rewrite are proved by induction over that language for "
+       "every schema (binary; ASCII modulo the measured float-parse hypothesis). On every run, for 20 format entries x {binary, ASCII} "
+       "on generated containers and all shipped fixtures, the file each schema writes from the container's values equals the real "
+       "file byte for byte. Generated containers have heterogeneous per-item counts below the file maxima, every optional record the "
+       "readers accept, and shuffled dict order.",
+       "how a container's attributes map onto the value sequence (sparse-matrix flattening, adjoint group order) is tied at function "
+       "level and by the oracle, not proved; NotImplementedError branches and the broken COMPXS record variants (findings) are outside "
+       "the schemas.")
+
 NOT_YET = {}
 
 ALL = [f"C{n:02d}" for n in range(1, 21)]
